@@ -15,7 +15,6 @@ from spacepackets.cfdp.tlv.defs import (
 )
 from spacepackets.exceptions import BytesTooShortError
 from spacepackets.cfdp.exceptions import TlvTypeMissmatch
-from spacepackets.util import UnsignedByteField
 
 
 def map_enum_status_code_to_int(status_code: FilestoreResponseStatusCode) -> int:
@@ -563,6 +562,6 @@ class EntityIdTlv(AbstractTlvBase):
         """Custom implementation which only compares the numerical value of the entity IDs"""
         if not isinstance(other, EntityIdTlv):
             return False
-        own_id = UnsignedByteField.from_bytes(self.value)
-        other_id = UnsignedByteField.from_bytes(other.value)
-        return own_id.value == other_id.value
+        return int.from_bytes(self.value, byteorder="big") == int.from_bytes(
+            other.value, byteorder="big"
+        )
